@@ -31,7 +31,7 @@ class RootLinearOperator(LinearOperator):
     ) -> Float[LinearOperator, "... M N"]:
         if len(batch_shape) == 0:
             return self
-        return self.__class__(self.root._expand_batch(batch_shape))
+        return self.__class__(self.root._expand_batch(batch_shape), **self._kwargs)
 
     def _get_indices(self, row_index: IndexType, col_index: IndexType, *batch_indices: IndexType) -> torch.Tensor:
         row_index = row_index.unsqueeze(-1)
